@@ -18,7 +18,9 @@ RULE = ("ALL sequences of <= L operations (L=5 quick, 7 thorough) over {open "
         "terminal model are checked: live mappings <-> distinct FMMU indices "
         "inside [0, n), programming an FMMU that is live for another "
         "mapping is a violation, opening with none free raises and changes "
-        "nothing, closing frees exactly its own FMMU and deactivates it. "
+        "nothing, closing frees exactly its own FMMU and deactivates it; "
+        "logical addresses distinct, starting at 0, all equal, or pairwise "
+        "equal (inputs and outputs at one address as for LRW). "
         "Plus seeded histories of 2-4 concurrent tasks (sync groups sharing "
         "the terminal) opening, holding and closing mappings at random "
         "offsets: no FMMU is given to a task while another still uses it; "
@@ -34,8 +36,12 @@ MIN_EVALUATIONS = {"quick": 500, "thorough": 10000}
 
 def plan(tier, seed):
     L = 5 if tier == "quick" else 7
-    return [dict(n=n, L=L, first=f) for n in (1, 2, 3, 4)
+    return [dict(n=n, L=L, first=f, addr="distinct") for n in (1, 2, 3, 4)
             for f in ("R", "W")] + [
+        # other logical-address layouts: starting at 0, all mappings at one
+        # address, inputs and outputs pairwise at one address (LRW layout)
+        dict(n=n, L=L - 1, first=f, addr=a) for n in (1, 2, 3, 4)
+        for f in ("R", "W") for a in ("zero", "same", "pairs")] + [
         dict(n=n, concurrent=True, seed=seed,
              count=600 if tier == "quick" else 6000) for n in (1, 2, 3, 4)] \
         + [dict(n=0, group=True, seed=seed,
@@ -69,7 +75,18 @@ def sequences(L, first):
     return out
 
 
-def run_seq(n, seq):
+def next_logical(addr, k):
+    """logical address of the k-th mapping opened (k = 0, 1, ...)"""
+    if addr == "zero":
+        return 0x1000 * k
+    if addr == "same":
+        return 0x10000
+    if addr == "pairs":
+        return 0x11000 + 0x1000 * (k // 2)
+    return 0x11000 + 0x1000 * k
+
+
+def run_seq(n, seq, addr="distinct"):
     t = bus.SimTerminal("T", station=9, fmmus=n)
     b = bus.Bus([t])
     trace = []
@@ -83,12 +100,13 @@ def run_seq(n, seq):
         term.pdo_in_off, term.pdo_in_sz = 0x1100, 6
         term.pdo_out_off, term.pdo_out_sz = 0x1000, 4
         live = []            # (cm, index, write, logical)
-        logical = 0x10000
+        nopened = 0
         for step, op in enumerate(seq):
             mark = len(t.events)
             before = list(term.fmmu_used)
             if op in ("R", "W"):
-                logical += 0x1000
+                logical = next_logical(addr, nopened)
+                nopened += 1
                 cm = term.map_fmmu(logical, op == "W")
                 try:
                     idx = await cm.__aenter__()
@@ -209,8 +227,9 @@ def run_concurrent(n, rng):
     t = bus.SimTerminal("T", station=9, fmmus=n)
     b = bus.Bus([t])
     ntask = rng.randint(2, 4)
+    addr = rng.choice(["distinct", "distinct", "zero", "same", "pairs"])
     plan_ = [dict(write=rng.random() < 0.4, start=rng.randint(0, 4),
-                  hold=rng.randint(0, 6), logical=0x20000 + 0x1000 * k)
+                  hold=rng.randint(0, 6), logical=next_logical(addr, k))
              for k in range(ntask)]
 
     async def main(loop):
@@ -376,9 +395,11 @@ def run_shard(params):
         res.info["distinct_interleavings"] = len(sigs)
         return res
     for seq in sequences(params["L"], params["first"]):
-        trace, t = run_seq(n, seq)
+        addr = params.get("addr", "distinct")
+        trace, t = run_seq(n, seq, addr)
         why, maxlive = check_trace(n, trace)
-        desc = dict(fmmus=n, ops=[o if isinstance(o, str) else list(o)
+        res.count("sequences[addresses " + addr + "]")
+        desc = dict(fmmus=n, addresses=addr, ops=[o if isinstance(o, str) else list(o)
                                   for o in seq])
         res.case(desc, nontrivial=maxlive >= 2)
         res.count("steps", len(trace))
